@@ -1,7 +1,7 @@
 (* C08 — polling backs off with bounded, strictly positive delays.
    Statements only; proofs are `exact`/instantiation of Proofs/BackoffProofs.v.
    The constants come from Gen/SrcFacts_Agent.v, regenerated from the source. *)
-From Coq Require Import ZArith List Bool Lia.
+From Coq Require Import String ZArith List Bool Lia.
 From IP Require Import Gen.SrcFacts_Agent Agent.Backoff Proofs.BackoffProofs.
 Import ListNotations.
 Open Scope Z_scope.
@@ -27,6 +27,13 @@ Print Assumptions C08_constants.
 
 (* the schedule before jitter, for every retry count of the Go uint range:
    min(2^n ms, 3 s); in particular no overflow at 62, 63, 64, 2^32, 2^64-1 *)
+(* what counts as a failed poll, i.e. what makes the loop back off: every answer of the pending-list call other than
+   status 200 with an empty body or a JSON list (the outcomes list of C08_loop is this classification) *)
+Theorem C08_failed_poll :
+  parseRequestIDsConds = ["err != nil"; "response.StatusCode != http.StatusOK"; "len(responseBytes) <= 0"; "json.Unmarshal(responseBytes, &requests); err != nil"]%string.
+Proof. reflexivity. Qed.
+Print Assumptions C08_failed_poll.
+
 Theorem C08_schedule : forall n, 0 <= n < 2^64 ->
   base_now n = Z.min (2^n * firstRetryWaitDuration) maxBackoffDuration /\
   firstRetryWaitDuration <= base_now n <= maxBackoffDuration.
